@@ -179,3 +179,64 @@ theorem tailSecs_text (f : Fields) (p : Bytes) (hlen : p.length < 10 ^ 9) :
   all_goals (intro hh; cases p <;> simp_all)
 
 end Gts.GenBank
+
+namespace Gts.GenBank
+open Gts.Pars
+
+theorem writable_parts (reg : Registry) (r : Record) (p : Bytes) (hw : Writable reg r p = true) :
+    locusOk r.fields (locusLength r.fields p) = true ∧ isMolecule r.fields.molecule = true ∧
+    headerOk r.fields = true ∧
+    (match r.table with | [] => true | _ :: _ => tableWritable reg r.table) = true ∧
+    (if r.fields.contigAcc.isEmpty then decide (r.fields.contigHead = 0 ∧ r.fields.contigTail = 0)
+      else contigOk r.fields) = true ∧
+    p.all Origin.isBase = true ∧ p.length < 10 ^ 9 := by
+  simp only [Writable, Bool.and_eq_true, decide_eq_true_eq] at hw
+  obtain ⟨⟨⟨⟨⟨⟨h1, h2⟩, h3⟩, h4⟩, h5⟩, h6⟩, h7⟩ := hw
+  exact ⟨h1, h2, h3, h4, h5, h6, h7⟩
+
+theorem headerOk_refs (f : Fields) (h : headerOk f = true) :
+    regionOk f = true ∧ ∀ x ∈ f.references, ∀ v, x.pubmed = some v → noEOL v = true := by
+  simp only [headerOk, Bool.and_eq_true, List.all_eq_true] at h
+  refine ⟨h.1.1.1.1.1.1.1.1.1.1.1.1, ?_⟩
+  intro x hx v hv
+  have := h.1.1.2 x hx
+  simp only [referenceOk, Bool.and_eq_true] at this
+  have h2 := this.1.2
+  rw [hv] at h2; exact h2
+
+/-- the text `GenBank.String` writes, for a record with residues `p` -/
+theorem write_eq (reg : Registry) (r : Record) (p : Bytes) (ho : r.origin = .residues p)
+    (hh : headerOk r.fields = true) (hlen : p.length < 10 ^ 9) :
+    (r.table = [] → write reg r = .ok (locusLine r.fields (locusLength r.fields p) ++ 10 ::
+        (secsText (headerSecs r.fields) ++ (secsText (tailSecs r.fields p) ++ bs "//\n")))) ∧
+    (∀ ft fs tt, r.table = ft :: fs → tableText reg (ft :: fs) = .ok tt →
+      write reg r = .ok (locusLine r.fields (locusLength r.fields p) ++ 10 ::
+        (secsText (headerSecs r.fields) ++ (bs "FEATURES             Location/Qualifiers\n" ++ (tt ++ 10 ::
+          (secsText (tailSecs r.fields p) ++ bs "//\n")))))) := by
+  obtain ⟨hr, hp⟩ := headerOk_refs r.fields hh
+  obtain ⟨f, tab, org⟩ := r
+  simp only at ho hh hr hp ⊢
+  subst ho
+  have hhead := headerText_eq f (locusLength f p) hr hp
+  have htail := tailSecs_text f p hlen
+  have hL : (if p = [] then contigLen f else ((p.length : Nat) : Int)) = locusLength f p := by
+    unfold locusLength
+    cases p <;> simp
+  have hnew := Origin.newOrigin_ok p hlen
+  constructor
+  · intro ht
+    subst ht
+    unfold write
+    rw [← htail]
+    by_cases hpos : 0 < p.length
+    · simp [OriginV.len, OriginV.text, hL, hhead, hnew, hpos, Bind.bind, Except.bind, pure, Except.pure, List.append_assoc]
+    · simp [OriginV.len, OriginV.text, hL, hhead, hnew, hpos, Bind.bind, Except.bind, pure, Except.pure, List.append_assoc]
+  · intro ft fs tt ht htt
+    subst ht
+    unfold write
+    rw [← htail]
+    by_cases hpos : 0 < p.length
+    · simp [OriginV.len, OriginV.text, hL, hhead, hnew, htt, hpos, Bind.bind, Except.bind, pure, Except.pure, List.append_assoc]
+    · simp [OriginV.len, OriginV.text, hL, hhead, hnew, htt, hpos, Bind.bind, Except.bind, pure, Except.pure, List.append_assoc]
+
+end Gts.GenBank
